@@ -14,6 +14,7 @@ from engine import statusmon as S
 from engine.statusmon import Mon
 
 LEVEL = "other"
+THOROUGH_VIEWS = ("cap=3",)   # this module already reads both the library's and the binary's copy where it matters
 ROOT_SCOPE = "rules::eval_context::root_scope"
 EVAL_FILE = "rules::eval::eval_rules_file"
 MAX_GEN = 3
